@@ -221,6 +221,8 @@ def _cmp_relation(term, s_root, t_root):
 
 
 def run_pointwise(ctx, chk, tables):
+    from . import c10 as _c10
+    _c10.pointwise_shape_rule(ctx, chk, "R01.3")   # entry [i..., j...] belongs to sample i and threshold j: scores-first flat buffer
     labels = Sym("labels", ("param", "array", "notnone"))
     scores = Sym("scores", ("param", "array", "notnone", "rawdtype"))
     thr = Sym("threshold", ("param", "array", "notnone"))
